@@ -1,4 +1,13 @@
-"""C01  First-order solution satisfies the model equations and is the stable one."""
+"""C01  First-order solution satisfies the model equations and is the stable one.
+
+Scope note: the theorems (and the tolerance correspondence) assume CURRENT-DATED shocks.  In the model this assumption sits
+in `simulate_flat` / `flat_step` / `simulate_measurement` of coq/model/Ford.v: the shock vector of period t that multiplies
+P (and D, H, J in the statements) is ONE vector e[t] = u[t] + v[t] (w[t]) with one entry per shock token of the system, read
+at date t, exactly as fords/shock_simulators.py::extract_shock_values reads `working_data[shock_qids, :]` by qid only.  A
+lagged shock e{-k} is a separate shock token (a separate column of D / J) that the code nevertheless feeds with the value of
+date t, not t-k: the theorems still hold for the vector the code uses, but that vector is not the model's e{-k}.  This is the
+recorded finding `equations:lagged-shock`; models with lagged shocks are generated only by the dedicated falsifier class
+`lagged_shock_*` below and are kept out of the correspondence and of every other failure key."""
 from __future__ import annotations
 
 import contextlib
@@ -55,7 +64,10 @@ MANIFEST = {
                   "fords/solutions.py); the recursion matrix has exactly the generalised eigenvalues of the pencil block ordered first. "
                   "Correspondence: random models as source text -> from_string/assign/steady/solve/simulate, all 15 solution matrices, "
                   "expansions, token vectors, dynamic identities, classification and every simulated cell against the exact model.",
-    "level_note": "partial. Contracts (premises, re-checked numerically on every recorded oracle output): ordered QZ (Q A Z = S, Q B Z = T, "
+    "level_note": "partial. The theorems assume CURRENT-DATED shocks: one shock vector e[t] per period with one entry per shock token, "
+                  "read at date t (simulate_flat / flat_step / simulate_measurement of model/Ford.v, as extract_shock_values does); a lagged "
+                  "shock e{-k} is a separate token that the code feeds with the value of date t -- recorded finding equations:lagged-shock, "
+                  "probed by a separate falsifier class and kept out of the correspondence. Contracts (premises, re-checked numerically on every recorded oracle output): ordered QZ (Q A Z = S, Q B Z = T, "
                   "Q non-singular, S/T block upper triangular, S11, T22, S22+T22, Z21 non-singular), Schur (u orthogonal, Tg = u Ta u'), "
                   "lstsq = inverse. NOT proved: boundedness of the powers of a matrix with spectral radius < 1 (non-explosiveness is stated "
                   "as similarity to the stable pencil block, theorem C01_recursion_spectrum_partial); floating-point rounding (tie by tolerance "
@@ -243,6 +255,8 @@ def render_source(spec) -> tuple[str, dict]:
             rhs.append(coef(f"k{i + 1}", e["const"]))
         for (s, c) in e["shocks"]:
             rhs.append(ename(s) if c == 1.0 else f"{_num(c)}*{ename(s)}")
+        for (s, lag, c) in e.get("lagshocks", []):
+            rhs.append(f"{_num(c)}*{ename(s)}{{-{lag}}}")
         if not rhs:
             rhs = ["0"]
         eq_lines.append(f"  {_tok(spec, i, 0)} = " + " + ".join(rhs) + ";")
@@ -253,6 +267,8 @@ def render_source(spec) -> tuple[str, dict]:
             rhs.append(coef(f"d{k + 1}", m["const"]))
         if m["wshock"] is not None:
             rhs.append(wname(m["wshock"]))
+            if m.get("wlag"):
+                rhs.append(f"{_num(m['wlag'][1])}*{wname(m['wshock'])}{{-{m['wlag'][0]}}}")
         lhs = f"log({oname(k)})" if m["log"] else oname(k)
         meq.append(f"  {lhs} = " + " + ".join(rhs) + ";")
     if params:
@@ -840,13 +856,20 @@ def parse_nested(body: str) -> list[list[int]]:
 
 # ====================================================================== property residuals on the implementation
 
-def property_residual(spec, m, sc, out, span, Jc=None, V=None, tol=2e-6) -> list[str]:
+def property_residual(spec, m, sc, out, span, Jc=None, V=None, tol=2e-6, lag_mode="true") -> list[str]:
     """The property itself on the public API: every linearised equation (re-derived from the generated source) holds on
     the simulated databox in every period, with leads read from the model-consistent continuation of the same path
     (a re-simulation from t+1 on with later unanticipated shocks removed).  Returns descriptions of violations."""
     import irispie as ir
     bad = []
     n = spec["n"]
+
+    def sv0(dbx, nm, q):
+        try:
+            v = series_value(dbx, nm, q)
+        except Exception:
+            return 0.0
+        return 0.0 if v != v else v
     has_nl = any(e["nl"] for e in spec["eqs"])
     if has_nl:
         V = own_steady(spec) if V is None else V
@@ -905,6 +928,10 @@ def property_residual(spec, m, sc, out, span, Jc=None, V=None, tol=2e-6) -> list
                 r += c * Vval(src, j, p + sh)
             for (s, c) in e["shocks"]:
                 r += c * (series_value(out, ename(s), p) + series_value(out, "ant_" + ename(s), p))
+            for (s, lag, c) in e.get("lagshocks", []):
+                # lag_mode "true": the model's e{-lag}; "mistimed": the lagged token read at the current date
+                q = p if lag_mode == "mistimed" else p - lag
+                r += c * (sv0(out, ename(s), q) + sv0(out, "ant_" + ename(s), q))
             if not dev and not has_nl:
                 r += e["const"]
             if not (abs(r) <= tol):
@@ -918,6 +945,9 @@ def property_residual(spec, m, sc, out, span, Jc=None, V=None, tol=2e-6) -> list
                 rhs += me["const"]
             if me["wshock"] is not None:
                 rhs += series_value(out, wname(me["wshock"]), p)
+                if me.get("wlag"):
+                    q = p if lag_mode == "mistimed" else p - me["wlag"][0]
+                    rhs += me["wlag"][1] * sv0(out, wname(me["wshock"]), q)
             r = o - rhs
             if not (abs(r) <= tol * (1 + abs(o))):
                 bad.append(f"measurement equation {k + 1} at period index {ti}: residual {r:.3e}")
@@ -1278,6 +1308,66 @@ def measurement_lead_case(prm: dict):
                    "e[start]=shock, span, method='first_order')")
 
 
+LAGGED_WITNESS = {   # x = 1 + 0.5*x{-1} + e1 + 0.5*e1{-2}, linear, unit e1 in the first period
+    "spec": {"n": 1, "logs": [False], "eqs": [{"terms": [[0, -1, 0.5]], "const": 1.0, "shocks": [[0, 1.0]], "nl": [],
+                                             "lagshocks": [[0, 2, 0.5]]}],
+             "meas": [], "nshocks": 1, "nw": 0, "linear": True, "flat": True, "literal": True},
+    "scenario": {"nper": 5, "deviation": False, "u": [[0, 0, 1.0]], "v": [], "w": [], "init": []},
+}
+
+
+def add_lagged_shocks(rng, spec) -> dict:
+    """the same model with lagged shock terms c*e{-k}, k = 1..3, in one or two transition equations and (when there is a
+    measurement shock) a lagged measurement shock"""
+    import copy
+    sp = copy.deepcopy(spec)
+    for i in rng.sample(range(sp["n"]), min(sp["n"], rng.choice([1, 1, 2]))):
+        sp["eqs"][i]["lagshocks"] = [[rng.randrange(sp["nshocks"]), rng.randint(1, 3), rng.choice([0.25, 0.5, -0.5, 0.75])]]
+    for me in sp["meas"]:
+        if me["wshock"] is not None and rng.random() < 0.6:
+            me["wlag"] = [rng.randint(1, 2), rng.choice([0.5, -0.5, 0.25])]
+    return sp
+
+
+def lagged_shock_case(spec, sc):
+    """One model with lagged shocks.  The known defect (key exactly `equations:lagged-shock`): the equations fail on the
+    simulated path, but hold once every lagged shock token is read at the CURRENT date -- i.e. the simulator applies
+    e{-k} in the shock period.  Anything else that goes wrong on such a model keeps its own key."""
+    acc = _accept(spec)
+    if acc is None:
+        return []
+    m, _rec = build_model(spec)
+    acc = accept_at_model_steady(spec, m, acc)
+    if acc is None or m.get_solution().system_stability.name != "STABLE":
+        return []
+    V, Jc = acc[0], acc[1]
+    src = render_source(spec)[0]
+    where = {"spec": spec, "scenario": sc, "source": src}
+    repro = ("harness.C01: m, _ = build_model(spec); db, out, span = run_scenario(m, spec, scenario); "
+             "property_residual(spec, m, scenario, out, span)")
+    fails = []
+    db, out, span = run_scenario(m, spec, sc)
+    vals = [series_value(out, vname(j), p) for j in range(spec["n"]) for p in span]
+    if not all(np.isfinite(vals)):
+        return [Failure("path:non-finite", "simulated path of a model with lagged shocks contains non-finite values", where,
+                        None, None, repro)]
+    bad_true = property_residual(spec, m, sc, out, span, Jc, V, lag_mode="true")
+    bad_mis = property_residual(spec, m, sc, out, span, Jc, V, lag_mode="mistimed")
+    if bad_mis and bad_true:
+        fails.append(Failure("equations:residual", "a linearised equation of a model with lagged shocks does not hold on the simulated "
+                             "path, and not only because lagged shocks are applied in the shock period (it fails as well with the "
+                             "lagged shock tokens read at the current date)", where, bad_mis[:5], "|residual| <= 2e-6", repro))
+    elif bad_true:
+        fails.append(Failure("equations:lagged-shock", "first-order simulation mistimes lagged shocks: a term c*e{-k} acts in the period "
+                             "of the shock instead of k periods later (the equations hold only when the lagged shock tokens are read at "
+                             "the current date)", where, bad_true[:5], "|residual| <= 2e-6 with e{-k} read k periods earlier", repro))
+    bad = level_vs_deviation(spec, m, sc)
+    if bad:
+        fails.append(Failure("level-vs-deviation", "level simulation differs from steady state plus deviation simulation (model with "
+                             "lagged shocks)", where, bad[:5], "equal within 1e-7", repro))
+    return fails
+
+
 def falsify(ctx, hints):
     rng = ctx.rng
     fails: list[Failure] = []
@@ -1428,11 +1518,36 @@ def falsify(ctx, hints):
         f = measurement_lead_case(prm)
         if f is not None and all(x.key != f.key for x in fails):
             fails.append(f)
+    # 4. models with lagged shocks (separate class; known finding equations:lagged-shock).  The deterministic witness first.
+    info["lagged_shock_models"] = 0
+    cases = [(LAGGED_WITNESS["spec"], LAGGED_WITNESS["scenario"])]
+    for _ in range(ctx.scale(6, 120)):
+        base, _acc = gen_determinate(rng, 8)
+        sp = add_lagged_shocks(rng, base)
+        sc = gen_scenario(rng, sp, nper=rng.randint(5, 8))
+        if not sc["u"] and not sc["v"]:
+            sc["u"].append([0, 0, 1.0])
+        cases.append((sp, sc))
+    for sp, sc in cases:
+        try:
+            fl = lagged_shock_case(sp, sc)
+        except Exception as e:
+            fl = [Failure("simulate:raises", f"a model with lagged shocks raises {type(e).__name__}: {e}"[:200],
+                          {"spec": sp, "scenario": sc, "source": render_source(sp)[0]})]
+        info["lagged_shock_models"] += 1
+        for f in fl:
+            if all(x.key != f.key for x in fails):
+                fails.append(f)
     return fails, info
 
 
 def replay(ctx, failure: dict):
     inp = failure.get("input") or {}
+    if inp.get("spec") and (any(e.get("lagshocks") for e in inp["spec"]["eqs"]) or any(q.get("wlag") for q in inp["spec"]["meas"])):
+        for f in lagged_shock_case(inp["spec"], inp["scenario"]):
+            if f.key == failure.get("key"):
+                return f
+        return None
     if failure.get("key") == "measurement:lead-dropped" and "params" in inp:
         return measurement_lead_case(inp["params"])
     spec = inp.get("spec")
